@@ -272,6 +272,13 @@ func runCheck(p *Prog, prop, tier string, timeout, workers int, verbose bool) in
 		}
 	}
 	// obligations that existed at baseline but vanished (function removed/renamed, contract key dangling)
+	for _, msg := range append(append([]string{}, p.specErrors[prop]...), p.specErrors["*"]...) {
+		o := &Obligation{Name: "contract-name:" + msg, Kind: "vacuity", Src: msg}
+		rp := writeReplay(prop, o, "a name used by the contract files matches nothing in the program; the clauses attached to it never apply")
+		fmt.Printf("VIOLATION property=%s replay=%s no-failing-input-found\n", prop, rp)
+		out.Violations = append(out.Violations, o.Name)
+		exit = 1
+	}
 	for _, k := range out.Missing {
 		o := &Obligation{Name: k + "#contract-key", Kind: "vacuity", Src: "function under contract not found in the program"}
 		rp := writeReplay(prop, o, "the contract file names a function that no longer exists; its obligations cannot be generated")
